@@ -205,6 +205,14 @@ def _time_after(eng, fr, st, name, args, rtypes, ins):
     return [(st, ch)]
 
 
+@model("time.Sleep")
+def _time_sleep(eng, fr, st, name, args, rtypes, ins):
+    """an uninterruptible (but bounded) wait: fails `cancellable ctx`, satisfies `prompt`"""
+    eng.on_block(fr, st, ins, [("sleep", None)], True)
+    st.log("time.Sleep", args, [], ins.get("pos"), "chan")
+    return [(st, None)]
+
+
 @model("time.NewTimer")
 def _new_timer(eng, fr, st, name, args, rtypes, ins):
     v = st.fresh(rtypes[0], "timer")
